@@ -440,11 +440,47 @@ fn read_stop(rundir: &std::path::Path) -> u64 {
     m
 }
 
+pub fn run_wall_limit_s() -> f64 {
+    std::env::var("VERIF_RUN_WALL_LIMIT_S").ok().and_then(|s| s.parse().ok()).unwrap_or(30.0)
+}
+
 /// Child process: runs indices offset, offset+stride, ... sequentially, one simulation at a time.
 pub fn worker_main(scn: &'static dyn DynScenario, opts: &BatchOpts, offset: u64, stride: u64, rundir: &std::path::Path) -> i32 {
     let t0 = Instant::now();
     let known = load_known();
     let mut a = Agg::default();
+    // Watchdog: a run that makes no progress for RUN_WALL_LIMIT_S seconds (a busy loop without any
+    // sync point, or a real blocking call while holding the baton) is reported as class "hang"
+    // and the worker exits; it is never silently waited for.
+    let current: Arc<Mutex<Option<(u64, Instant, Value, String, u64, u64)>>> = Arc::new(Mutex::new(None));
+    {
+        let current = current.clone();
+        let rundir = rundir.to_path_buf();
+        std::thread::spawn(move || loop {
+            std::thread::sleep(std::time::Duration::from_millis(500));
+            let c = current.lock().unwrap().clone();
+            if let Some((run, since, plan, strategy, sched_seed, code_seed)) = c {
+                if since.elapsed().as_secs_f64() > run_wall_limit_s() {
+                    // statistics of this worker are lost; the finding is what matters
+                    let mut a = Agg::default();
+                    a.runs = 1;
+                    a.found.push(FoundJ {
+                        run,
+                        plan,
+                        preemptions: vec![],
+                        faults: vec![],
+                        violation: Violation { class: "hang".into(), detail: format!("run made no progress for {} s of wall-clock time: a thread is busy-waiting without reaching any scheduling point, or blocked for real", run_wall_limit_s()) },
+                        strategy,
+                        sched_seed,
+                        code_seed,
+                    });
+                    let _ = std::fs::write(rundir.join(format!("stop.{}", offset)), format!("{}", run));
+                    let _ = std::fs::write(rundir.join(format!("worker-{}.json", offset)), serde_json::to_vec(&a).unwrap());
+                    std::process::exit(0);
+                }
+            }
+        });
+    }
     let mut run = offset;
     let mut since_check = 0u32;
     let mut stop_at = u64::MAX;
@@ -462,7 +498,9 @@ pub fn worker_main(scn: &'static dyn DynScenario, opts: &BatchOpts, offset: u64,
         }
         let plan = plan_for(scn, opts.seed, run, opts.tier);
         let sched = sched_for(scn, opts.seed, run);
+        *current.lock().unwrap() = Some((run, Instant::now(), plan.clone(), sched.strategy.name(), sched.seed, sched.code_seed));
         let rep = scn.execute_json(&plan, &sched);
+        *current.lock().unwrap() = None;
         flush_epoch();
         a.runs += 1;
         *a.strategies.entry(sched.strategy.name()).or_insert(0) += 1;
@@ -647,6 +685,12 @@ fn same_class(a: &Option<Violation>, class: &str) -> bool {
 fn minimise_and_write(scn: &dyn DynScenario, opts: &BatchOpts, f: FoundViolation) -> (String, Violation) {
     let class = f.violation.class.clone();
     let t0 = Instant::now();
+    if class == "hang" {
+        // re-executing would hang again; the replay command carries its own watchdog
+        let original = json!({"note": "not minimised: the run does not terminate"});
+        let file = write_replay(scn, opts, &f, &f.plan, &[], &[], &f.violation, &original);
+        return (file, f.violation.clone());
+    }
     let mut plan = f.plan.clone();
     let mut pre = f.preemptions.clone();
     let mut faults = f.faults.clone();
@@ -820,6 +864,21 @@ fn write_replay(
 pub fn replay_file(scn: &dyn DynScenario, path: &str, verbose: bool) -> Result<Option<Violation>, String> {
     let s = std::fs::read_to_string(path).map_err(|e| e.to_string())?;
     let rf: ReplayFile = serde_json::from_str(&s).map_err(|e| e.to_string())?;
+    if rf.violation.class == "hang" {
+        // a recorded hang is replayed under the seeded strategy it was found with, with a watchdog
+        let (prop, file) = (rf.property.clone(), path.to_string());
+        std::thread::spawn(move || {
+            std::thread::sleep(std::time::Duration::from_secs_f64(run_wall_limit_s()));
+            eprintln!("replayed: hang — the run again made no progress for {} s", run_wall_limit_s());
+            println!("VIOLATION property={} replay={}", prop, file);
+            std::process::exit(1);
+        });
+        let mut sched = sched_for(scn, rf.verif_seed, rf.run);
+        sched.code_seed = rf.code_seed;
+        let rep = scn.execute_json(&rf.plan, &sched);
+        flush_epoch();
+        return Ok(rep.violation);
+    }
     let sched = SchedSpec { code_seed: rf.code_seed, seed: 0, strategy: Strategy::Default, replay: Some(from_pj(&rf.preemptions)), faults: FaultMode::Scripted(rf.faults.clone()), trace: verbose };
     let rep = scn.execute_json(&rf.plan, &sched);
     flush_epoch();
